@@ -12,12 +12,15 @@
 //     or ep=<e0>/<e1>/...: one correct() call per epoch on the same object; during epoch i the methods named in
 //     e_i (e.g. `no`, `mepr`, `-` = none) answer "unavailable" however often -- or whether at all -- they are asked
 //     (sis-*: one epoch per filtering step; <steps> must equal the number of epochs)
-//   -> r0:<label>:<calls>:<same|modified> r1:...
+//     optional token alias=1: in-place calls correct(b, b) (the signature allows it); labels then compare b after the
+//     call with a copy taken before it (twins are called in place too); last field is `alias`
+//   -> r0:<label>:<calls>:<same|modified|alias> r1:...
 //     label: pred     corrected belief identical bit-for-bit, every field, to the predicted one
 //            full     identical to a twin object with an all-valid model (same data, same seed)
 //            partial  (gpf) identical to a twin whose wrapped Gaussian correction is switched off:
 //                     positions redrawn / weights updated around the uncorrected Gaussians
 //            none / some (glik) failure reported / value reported (= twin's value)
+//            unrestored (gpf, in place) wrapped correction and redrawn positions left in the object, weights untouched
 //            other    none of these;   ambiguous=a=b  references coincide on this input
 //     calls: me1,pr0,...  method + answer, in call order ('-' = none)
 //
@@ -204,7 +207,7 @@ static std::unique_ptr<LikelihoodModel> mkLik(char kind, const Data12& d, std::s
 static std::unique_ptr<StateModel> mkState(const Data12& d) { return std::unique_ptr<StateModel>(new HState(d.F, d.Q)); }
 
 // ---------------------------------------------------------------- single corrections
-static std::string gauss_case(const std::string& cls, uint64_t seed, const Data12& d, long sub, std::shared_ptr<Script> s, long reps) {
+static std::string gauss_case(const std::string& cls, uint64_t seed, const Data12& d, long sub, std::shared_ptr<Script> s, long reps, bool alias) {
     long n = d.n, k = d.k;
     std::shared_ptr<Script> ok(new Script());
     std::unique_ptr<GaussianCorrection> c = mkGauss(cls, d, s, sub), twin = mkGauss(cls, d, ok, sub);
@@ -215,10 +218,20 @@ static std::string gauss_case(const std::string& cls, uint64_t seed, const Data1
         GaussianMixture pred(k, n), in(k, n), out(k, n), ref(k, n);
         fillGM(pred, r); in = pred;
         poisonGM(out); poisonGM(ref);
-        c->correct(pred, out);
-        std::string log = s->take_log();
+        bool sizefail = (cls == "sukf" && d.m % sub != 0);
         bool full = false;
-        if (!(cls == "sukf" && d.m % sub != 0)) { twin->correct(in, ref); full = sameGM(out, ref); }
+        std::string log;
+        if (alias) {
+            // in-place call: the same object is the predicted and the corrected belief
+            c->correct(pred, pred);
+            log = s->take_log();
+            if (!sizefail) { ref = in; twin->correct(ref, ref); full = sameGM(pred, ref); }
+            o.s("r" + std::to_string(rep) + ":" + pick({{"pred", sameGM(pred, in)}, {"full", full}}) + ":" + log + ":alias");
+            continue;
+        }
+        c->correct(pred, out);
+        log = s->take_log();
+        if (!sizefail) { twin->correct(in, ref); full = sameGM(out, ref); }
         o.s("r" + std::to_string(rep) + ":" + pick({{"pred", sameGM(out, in)}, {"full", full}}) + ":" + log + ":" + (sameGM(pred, in) ? "same" : "modified"));
     }
     return o.str();
@@ -244,7 +257,7 @@ static std::string glik_case(uint64_t seed, const Data12& d, std::shared_ptr<Scr
     return o.str();
 }
 
-static std::string part_case(const std::string& cls, uint64_t seed, const Data12& d, long sub, std::shared_ptr<Script> s, long reps) {
+static std::string part_case(const std::string& cls, uint64_t seed, const Data12& d, long sub, std::shared_ptr<Script> s, long reps, bool alias) {
     long n = d.n, k = d.k;
     std::shared_ptr<Script> ok(new Script()), ok2(new Script());
     std::unique_ptr<PFCorrection> c, twin, twin_partial;
@@ -267,6 +280,25 @@ static std::string part_case(const std::string& cls, uint64_t seed, const Data12
         ParticleSet pred(k, n), in(k, n), out(k, n), ref(k, n), refp(k, n);
         fillPS(pred, r); in = pred;
         poisonPS(out); poisonPS(ref); poisonPS(refp);
+        if (alias) {
+            // in-place call: the same object is the predicted and the corrected particle set
+            c->correct(pred, pred);
+            std::string log = s->take_log();
+            ref = in; twin->correct(ref, ref);
+            std::vector<std::pair<std::string, bool>> hits = {{"pred", samePS(pred, in)}, {"full", samePS(pred, ref)}};
+            if (twin_partial) {
+                refp = in; twin_partial->correct(refp, refp); hits.push_back({"partial", samePS(pred, refp)});
+                // GPF in place, likelihood unavailable, `corr = pred` a self-assignment: Gaussians and positions as
+                // after wrapped correction + sampling (wrapped succeeded: twin; wrapped gave up: partial twin), weights untouched
+                auto unrestored = [&](const ParticleSet& t) {
+                    return vh::same_bits(pred.mean(), t.mean()) && vh::same_bits(pred.covariance(), t.covariance()) &&
+                           vh::same_bits(pred.state(), t.state()) && vh::same_bits(pred.weight(), in.weight()) && !samePS(pred, in);
+                };
+                hits.push_back({"unrestored", unrestored(ref) || unrestored(refp)});
+            }
+            o.s("r" + std::to_string(rep) + ":" + pick(hits) + ":" + log + ":alias");
+            continue;
+        }
         c->correct(pred, out);
         std::string log = s->take_log();
         twin->correct(in, ref);      // all three objects draw the same number of normals per call (GPF): they stay in step
@@ -329,10 +361,12 @@ static std::string fault_case(Toks& t) {
     std::string cls = t.tok(); uint64_t seed = (uint64_t)t.nat(); long n = t.nat(), m = t.nat(), k = t.nat(), sub = t.nat();
     if (n < 1 || n > 6 || m < 1 || m > 6 || k < 1 || k > 8 || sub < 1 || sub > 8) throw vh::BadArgs("size");
     std::shared_ptr<Script> s(new Script()); parse_scripts(t, *s);
-    long reps = 1;
-    if (!t.empty()) {
+    long reps = 1; bool alias = false;
+    while (!t.empty()) {
         std::string rt = t.tok();
-        if (rt.compare(0, 5, "reps=") == 0) reps = std::atol(rt.c_str() + 5);
+        if (rt == "alias=1") alias = true;
+        else if (rt == "alias=0") alias = false;
+        else if (rt.compare(0, 5, "reps=") == 0) reps = std::atol(rt.c_str() + 5);
         else if (rt.compare(0, 3, "ep=") == 0) {
             // ep=<e0>/<e1>/...   e = '-' or a concatenation of method codes unavailable during that call
             std::string rest = rt.substr(3); size_t a = 0;
@@ -348,16 +382,15 @@ static std::string fault_case(Toks& t) {
                 a = b + 1;
             }
             reps = (long)s->epochs.size();
-        } else throw vh::BadArgs("reps");
+        } else throw vh::BadArgs("trailing:" + rt);
     }
-    t.done();
     if (reps < 1 || reps > 8) throw vh::BadArgs("reps");
     Data12 d(seed, n, m, k);
     g_step = 0;
-    if (cls == "kf" || cls == "ukfa" || cls == "ukfg" || cls == "sukf") return gauss_case(cls, seed, d, sub, s, reps);
+    if (cls == "kf" || cls == "ukfa" || cls == "ukfg" || cls == "sukf") return gauss_case(cls, seed, d, sub, s, reps, alias);
     if (cls == "glik") return glik_case(seed, d, s, reps);
     if (cls.compare(0, 4, "sis-") == 0) return sis_case(cls, seed, d, sub, s);
-    return part_case(cls, seed, d, sub, s, reps);
+    return part_case(cls, seed, d, sub, s, reps, alias);
 }
 
 int main() {
